@@ -4,7 +4,7 @@ patch="$1"; wt="$2"; shift 2
 props="$@"; [ -z "$props" ] && props="C01 C02 C03 C04 C05 C06 C07 C08 C09 C10 C11 C12 C13 C14 C15 C16 C17 C18 C19 C20"
 out=/tmp/devseed_out_$$; mkdir -p $out && cp /verif/known_findings.txt $out/
 cd "$wt" || exit 2
-git checkout -q -- . ; git apply "$patch" || { echo "patch does not apply"; exit 2; }
+git checkout -q -- . ; git clean -fdq; git apply "$patch" || { echo "patch does not apply"; exit 2; }
 res=""
 for p in $props; do
   o=$(cd /verif && VERIF_DIR=$out ./bin/crngcheck check -property $p -repo "$wt" 2>&1)
@@ -13,6 +13,6 @@ for p in $props; do
     [ -n "$VERBOSE" ] && echo "$o" | grep -B1 "^VIOLATION" | grep -v "^VIOLATION\|^--" | head -3 | cut -c1-260 | sed "s/^/   $p: /"
   fi
 done
-git checkout -q -- .
+git checkout -q -- . ; git clean -fdq
 rm -rf $out
 echo "ALARMS:${res:- none}"
